@@ -63,6 +63,7 @@ def run(pid, tier, seed, replay=None):
         c1 += [drv.gen_mincost_longroute(rng) for _ in range(nq // 2)]
         c1 += [drv.gen_mincost_huge(rng) for _ in range(nq // 3)]
         c1 += [drv.gen_mincost_cheapfirst(rng) for _ in range(nq // 3)]
+        c1 += [drv.gen_mincost_negative_tail(rng) for _ in range(nq // 3)]
         c2 = [drv.gen_mincost(rng, general=True) for _ in range(nq)]
         c2 += [drv.gen_mincost_huge(rng, general=True) for _ in range(nq // 2)]
         c2 += [drv.gen_mincost_cheapfirst(rng, general=True) for _ in range(nq // 2)]
